@@ -405,7 +405,8 @@ func genNBNS(v *Vector, r *rand.Rand, k int) []*Case {
 	hdr := make([]byte, 12)
 	binary.BigEndian.PutUint16(hdr[0:2], uint16(1+r.Intn(65000)))
 	var b []byte
-	names := make([]string, len(v.Seq))
+	pad := num(v.Aux, "pad")
+	names := make([]string, len(v.Seq)+pad)
 	if ans == "query" {
 		hdr[2], hdr[3] = 0x00, 0x10
 		hdr[5] = 1
@@ -432,6 +433,15 @@ func genNBNS(v *Vector, r *rand.Rand, k int) []*Case {
 			ent = append(ent, []byte{0x00, 0x20}[k%2]) // suffix: workstation / file server
 			rdata = append(rdata, ent...)
 			rdata = append(rdata, flags...)
+		}
+		for j := 0; j < pad; j++ { // further complete entries, all unique names
+			nm := fmt.Sprintf("PAD%02d%s", j, strings.ToUpper(string(letters(r, 4))))
+			names[len(v.Seq)+j] = nm
+			ent := []byte(nm)
+			for len(ent) < 15 {
+				ent = append(ent, ' ')
+			}
+			rdata = append(rdata, append(ent, 0x00, 0x04, 0x00)...)
 		}
 		tailb := []byte(strings.ToUpper(string(letters(r, 15))))
 		tailb = append(tailb, 0, 0x04, 0)
